@@ -6,14 +6,18 @@ from mirutil import call_name_matches, provenance, bool_switch, edge_dominates, 
 
 LEVEL = "other"
 EXPLANATION = (
-    "Decides two clauses of C12. (R12.1) which quads are omitted: QuadJsonLdUtil::is_jsonld is the conjunction "
+    "Decides the expressibility filter and the totality of the serializer engine (C12). (R12.1) which quads are omitted: QuadJsonLdUtil::is_jsonld is the conjunction "
     "s.is_subject() && p.is_iri() && o.is_object() && g.is_none_or(is_subject), the kind tables of is_subject / is_object / "
-    "is_bnode are {Iri,BlankNode} / {Iri,BlankNode,Literal} / {BlankNode} (read from the TermKind switch tables), and in "
+    "is_bnode are {Iri,BlankNode} / {Iri,BlankNode,Literal} / {BlankNode} (each predicate decided for all five kinds, "
+    "whether written as matches!, == or a combination), and in "
     "Engine::process_quads the only path that returns without recording the quad is the false edge of is_jsonld(). "
     "(R12.2) panic audit of the whole serializer (engine, rdf_object, util_traits): every unwrap, panic macro, map `[key]`, "
     "slice and vector index is auto-discharged (constant index behind a `len() == 1` test, full-range slice, accessor under "
     "the matching kind), or audited by exact key with the data-structure invariant it relies on; anything else is a "
-    "violation. NOT decided: list detection/suppression, named-graph placement, and every round-trip equality.")
+    "violation. (R12.3) the unique-parent bookkeeping used for list detection forgets an existing parent iff it differs "
+    "from the new (subject, predicate) in any component. (R12.4) the `@type` key is chosen only under `p == rdf:type && "
+    "obj.is_iri() && !use_rdf_type`. (R12.5) a quad of a named graph always registers its subject under the graph node's "
+    "@graph entry. NOT decided: list detection/suppression, named-graph placement, and every round-trip equality.")
 
 TABLE = {
     # --- node indexes
@@ -99,7 +103,9 @@ def filter_rule(ck, facts):
         if len(fns) != 1:
             ck.bad("R12.1", "R12.1@%s#anchor" % name, "anchor-missing: TermJsonLdUtil::%s (%d)" % (name, len(fns)))
             continue
-        got = true_kinds(fns[0])
+        import termimpls
+        pred = termimpls.kind_predicate(facts, fns[0])
+        got = {k for k, v in pred.items() if v} if pred is not None else true_kinds(fns[0])
         if got == want:
             ck.ok("R12.1", "%s = kind in %s" % (name, sorted(want)))
         else:
